@@ -386,7 +386,7 @@ VCHECK("c15.safety", 900)
     const QString remotePassword = genToken(t, t.pick<int>({ 22, 22, 22, 6, 32, 70 }));
     enum Phase { IDLE, CHECKING, FAILED, ANSWERED, NOMINATED };
     Phase phase = nCand == 0 ? Phase(t.u(2)) : Phase(t.weighted({ 4, 4, 2, 3, 3 }));
-    const bool nocreds = phase == IDLE && t.prob(1, 8);   // remote credentials not set yet
+    const bool nocreds = phase == IDLE && t.prob(1, 4);   // remote credentials not set yet (a Jingle initiator waiting for session-accept)
     const bool fromKnown = nCand > 0 && t.prob(2, 3);
     const int forgerPick = fromKnown ? int(t.u(uint32_t(nCand))) : -1;
     const bool waitForTimer = t.prob(1, 6);     // second pair: wait for the 500 ms check timer instead of an honest triggering request
@@ -668,8 +668,12 @@ VCHECK("c15.safety", 900)
         if (f.role & 2)
             f.attrs.push_back({ A_CONTROLLED, t.bytes(8) });
 
-        const quint16 type = typeOf(f.kind);
-        f.twinBytes = stunBuild(type, f.tid, f.attrs, f.rightKey, f.fp);
+        // the forged datagram may carry the reserved two top bits of the message type (RFC 5389 wants them zero; class and
+        // method are in the lower bits, so a parser that masks differently in different places may classify it twice)
+        const quint16 reservedBits = t.prob(1, 5) ? t.pick<quint16>({ 0x4000, 0x8000, 0xC000 }) : quint16(0);
+        const quint16 twinType = typeOf(f.kind);
+        const quint16 type = quint16(twinType | reservedBits);
+        f.twinBytes = stunBuild(twinType, f.tid, f.attrs, f.rightKey, f.fp);
         switch (f.integ) {
         case I_NONE:
             f.forgedBytes = stunBuild(type, f.tid, f.attrs, QByteArray(), f.fp);
@@ -733,7 +737,9 @@ VCHECK("c15.safety", 900)
         static const char *rn[] = { "role=none", "role=controlling", "role=controlled", "role=both" };
         static const char *pn[] = { "prio=absent", "prio=prflx", "prio=random", "prio=0", "prio=max" };
         f.desc = std::string(kindName[f.kind]) + "/" + integName[f.integ] + (f.useCandidate ? " USE-CANDIDATE " : " ") + un[f.username] + " " + rn[f.role] + " " + pn[f.prio] +
-            (f.inflightTid ? " tid=in-flight" : " tid=random") + (f.fp ? " +fp" : "") + (f.wouldReact ? " [live if authenticated]" : "");
+            (f.inflightTid ? " tid=in-flight" : " tid=random") + (f.fp ? " +fp" : "") + (reservedBits ? " type|=0x" + QByteArray::number(reservedBits, 16).toStdString() : std::string()) + (f.wouldReact ? " [live if authenticated]" : "");
+        if (reservedBits)
+            c.label("forged:reserved-type-bits");
         c.label(std::string("forged:") + kindName[f.kind] + "/" + integName[f.integ]);
         if ((f.kind == K_SUCCESS || f.kind == K_ERROR) && haveInflight && fromKnown)
             c.label("forged:response-to-in-flight-check-from-a-candidate-port");
